@@ -275,6 +275,56 @@ def x_runtest_reuse(ctx, case):
     return True
 
 
+def x_handlerless(ctx, case):
+    """RunTest(case) made without handlers (its ``handlers`` list "can be modified later"): a handler the user
+    inserted into ONE such runner takes precedence there, and is nobody else's - a second handler-less runner treats
+    the same exception as unclaimed (last_resort, then re-raised)."""
+    import testtools
+    from testtools.runtest import RunTest
+
+    class NotReady(Exception):
+        pass
+    exc_class = {"custom": NotReady, "value": ValueError}[case["exc"]]
+
+    class One(testtools.TestCase):
+        def test(self):
+            raise exc_class("first")
+
+    class Two(testtools.TestCase):
+        def test(self):
+            raise exc_class("second")
+    report = {"skip": lambda c, r, e: r.addSkip(c, details={}), "fail": lambda c, r, e: r.addFailure(c, details={})}[case["as"]]
+    first = RunTest(One("test")) if case["made"] == "no-arg" else RunTest(One("test"), [])
+    if case["how"] == "insert":
+        first.handlers.insert(0, (exc_class, report))
+    else:
+        first.handlers.append((exc_class, report))
+    log = recorders.Log()
+    first.run(recorders.ExtRecorder(log))
+    outs = [n for n in log.names() if n in recorders.OUTCOMES]
+    want = {"skip": "addSkip", "fail": "addFailure"}[case["as"]]
+    ctx.check(outs == [want], "handlers.user-inserted-take-precedence",
+              lambda: {"a handler-less RunTest, then handlers.%s(...)" % case["how"]: outs, "want": want, "case": case})
+    calls = []
+
+    def last_resort(c, r, e):
+        calls.append(e)
+        r.addError(c, details={})
+    second = RunTest(Two("test"), last_resort=last_resort)
+    log2 = recorders.Log()
+    propagated = None
+    try:
+        second.run(recorders.ExtRecorder(log2))
+    except BaseException as e:  # noqa
+        propagated = e
+    outs2 = [n for n in log2.names() if n in recorders.OUTCOMES]
+    ctx.check(outs2 == ["addError"] and len(calls) == 1 and isinstance(propagated, exc_class),
+              "unclaimed.last-resort-then-reraised",
+              lambda: {"second handler-less RunTest": outs2, "last_resort calls": len(calls),
+                       "propagated": repr(propagated), "case": case})
+    return True
+
+
 def x_deferred_forms(ctx, case):
     """The Deferred runners: what a stage hands back in the ways Twisted code does - an `async def` stage, a
     returned Failure, a Deferred subclass, an expectation failing after an earlier stage waited on an unfired
@@ -347,7 +397,7 @@ def x_deferred_forms(ctx, case):
 
 
 SUBCHECKS = {"prog": x_prog, "twin": x_twin, "xfail_decor": x_xfail_decor, "forced_rerun": x_forced_rerun,
-             "runtest_reuse": x_runtest_reuse, "deferred_forms": x_deferred_forms}
+             "runtest_reuse": x_runtest_reuse, "handlerless": x_handlerless, "deferred_forms": x_deferred_forms}
 
 FEATURES = ("own_exc", "expect", "force", "decor", "noupcall", "nested_cleanup", "handlers", "late_handler",
             "truthy_return", "base_handler", "eq_exc")
@@ -429,6 +479,16 @@ def run(ctx):
                                                   "every_run": every})
     ctx.note_space("one RunTest object run three times: first run raises from test and cleanup (3 x 3), every run "
                    "raises nothing / a skip / a failure", n)
+    n = 0
+    for exc in ("custom", "value"):
+        for as_ in ("skip", "fail"):
+            for made in ("no-arg", "empty-list"):
+                for how in ("insert", "append"):
+                    if ctx.mine():
+                        n += 1
+                        ctx.execute("handlerless", {"exc": exc, "as": as_, "made": made, "how": how})
+    ctx.note_space("a RunTest made without handlers gets one inserted, then a second handler-less RunTest meets the same "
+                   "exception: 2 exception classes x 2 reports x 2 ways of making it x insert / append", n)
     n = 0
     for where in ("instance", "class"):
         for first in ("expect", "expect_ok", "fail", "nothing"):
